@@ -98,7 +98,12 @@ pub fn gen_prog(rng: &mut Rng) -> Vec<u8> {
   let nblocks = 3 + rng.below(14);
   let mut hl_incs = 0;
   for _ in 0..nblocks {
-    match rng.below(14) {
+    match rng.below(15) {
+      14 => {                                                                                           // the display switched off and on again: the LCD's clock does not care
+        p.extend_from_slice(&[0x3e, rng.u8() & 0x7f, 0xe0, 0x40]);
+        for _ in 0..rng.below(4) { p.push(0x00); }
+        p.extend_from_slice(&[0x3e, 0x80 | rng.u8(), 0xe0, 0x40]);
+      },
       13 => {                                                                                           // OAM DMA still running when the CPU suspends / goes on
         p.extend_from_slice(&[0x3e, *rng.pick(&[0xc0u8, 0xd0, 0xc1, 0xff]), 0xe0, 0x46]);
         if waker && rng.chance(1, 2) { p.push(0x76); } else { for _ in 0..rng.below(6) { p.push(0x00); } }
